@@ -70,6 +70,9 @@ type AnnoOpts struct {
 	AllowSlip    bool // join segments that repeat one position (ribosomal slippage)
 	SplitCodons  bool // allow segment boundaries inside codons
 	Isoforms     bool // allow a second CDS with the same name, outer bounds and strand but another exon junction
+	SamConflicts bool // (SAM form) allow an extra supplementary record whose bases may disagree with the others
+	NoStop       bool // allow CDS features that do not end in a stop codon (partial CDS, polyprotein fragments)
+	Rotate       bool // allow joins whose segments are not written in ascending order (a feature spanning the origin of a circular genome)
 }
 
 // MakeAnnotation builds 1..MaxFeats coding features over a genome of length L
@@ -90,7 +93,12 @@ func MakeAnnotation(r *fw.Rng, L int, o AnnoOpts) Annotation {
 		feats = append(feats, f)
 	}
 	// plant stop codons (later features may overwrite earlier ones; verified below)
+	noStop := map[string]bool{}
 	for _, f := range feats {
+		if o.NoStop && r.Chance(0.15) {
+			noStop[f.ID] = true
+			continue
+		}
 		pos := f.CodingPositions()
 		st := stops[r.Intn(3)]
 		for k := 0; k < 3; k++ {
@@ -115,7 +123,7 @@ func MakeAnnotation(r *fw.Rng, L int, o AnnoOpts) Annotation {
 		return s == "TAA" || s == "TAG" || s == "TGA"
 	}
 	for _, f := range feats {
-		if !isStop(f) {
+		if !isStop(f) && !noStop[f.ID] {
 			continue
 		}
 		an.Feats = append(an.Feats, f)
@@ -247,6 +255,10 @@ func makeFeature(r *fw.Rng, L, i int, o AnnoOpts) (Feature, bool) {
 			p += gaps[s]
 		}
 	}
+	if o.Rotate && len(f.Segs) >= 2 && r.Chance(0.2) {
+		// join(b..c,a..b') : the written order is the order of concatenation
+		f.Segs = append(f.Segs[1:], f.Segs[0])
+	}
 	// the first segment in reading order must hold the bases codon_start skips
 	first := f.Segs[0]
 	if f.Strand < 0 {
@@ -315,6 +327,20 @@ func (a Annotation) Named() []Feature {
 	return o
 }
 
+// Bounds returns the smallest and largest position of the feature.
+func (f Feature) Bounds() (int, int) {
+	lo, hi := f.Segs[0][0], f.Segs[0][1]
+	for _, s := range f.Segs {
+		if s[0] < lo {
+			lo = s[0]
+		}
+		if s[1] > hi {
+			hi = s[1]
+		}
+	}
+	return lo, hi
+}
+
 // ---------------------------------------------------------------------------
 // GenBank rendering
 
@@ -368,7 +394,7 @@ func RenderGenBank(r *fw.Rng, a Annotation, translate func(Feature) string) stri
 		}
 		loc := gbLocation(f)
 		if r.Chance(0.5) {
-			lo, hi := f.Segs[0][0], f.Segs[len(f.Segs)-1][1]
+			lo, hi := f.Bounds()
 			sb.WriteString(fmt.Sprintf("     gene            %d..%d\n", lo, hi))
 			sb.WriteString(fmt.Sprintf("                     /gene=\"%s\"\n", f.Name))
 		}
@@ -476,7 +502,8 @@ func RenderGFFSeq(r *fw.Rng, a Annotation, withFasta bool, fastaSeq string) stri
 			sb.WriteString(fmt.Sprintf("%s\tsynthetic\t%s\t%d\t%d\t.\t%s\t%s\t%s\n", a.RefName, typ, s[0], s[1], strand, phase, attrs))
 		}
 		if r.Chance(0.2) {
-			sb.WriteString(fmt.Sprintf("%s\tsynthetic\tgene\t%d\t%d\t.\t%s\t.\tID=gene-%s\n", a.RefName, f.Segs[0][0], f.Segs[len(f.Segs)-1][1], strand, f.ID))
+			lo, hi := f.Bounds()
+			sb.WriteString(fmt.Sprintf("%s\tsynthetic\tgene\t%d\t%d\t.\t%s\t.\tID=gene-%s\n", a.RefName, lo, hi, strand, f.ID))
 		}
 	}
 	if withFasta {
